@@ -1,6 +1,7 @@
 package main
 
 import (
+	"go/constant"
 	"fmt"
 	"go/ast"
 	"go/token"
@@ -1831,6 +1832,7 @@ func (in *Interp) execFor(st *State, x *ast.ForStmt, label string) (*State, bool
 		delete(res.fields, p)
 	}
 	// labelled / unlabelled breaks carry their state out; keep object-valued vars from them
+	headExit := x.Cond != nil && !in.constTrueFlag(x.Cond)
 	for _, b := range breaks {
 		if b.label != "" && b.label != label {
 			in.breaks = append(in.breaks, b)
@@ -1847,7 +1849,19 @@ func (in *Interp) execFor(st *State, x *ast.ForStmt, label string) (*State, bool
 		}
 		for k, v := range b.st.fields {
 			if _, ok := res.fields[k]; !ok {
-				res.fields[k] = loosen(v)
+				lv := loosen(v)
+				// the loop can also end at its head (condition false) without having taken this break: a field
+				// only the breaking paths assign may still be as it was on entry
+				if headExit {
+					switch ov := lv.(type) {
+					case ObjV:
+						lv = MaybeV{V: ov}
+					case AltV:
+						ov.MayNil = true
+						lv = ov
+					}
+				}
+				res.fields[k] = lv
 			}
 		}
 	}
@@ -2189,4 +2203,50 @@ func (in *Interp) countedRange(x *ast.ForStmt) *ast.RangeStmt {
 		return nil
 	}
 	return &ast.RangeStmt{For: x.For, Key: iv, Tok: token.DEFINE, X: S, Body: x.Body}
+}
+
+// constTrueFlag: the condition is a boolean variable that is only ever assigned the constant true in this
+// function (a loop "flag" that is never cleared): the loop never ends at its head.
+func (in *Interp) constTrueFlag(cond ast.Expr) bool {
+	id, ok := unparen(cond).(*ast.Ident)
+	if !ok {
+		return false
+	}
+	o := in.obj(id)
+	if o == nil || !isBoolType(o.Type()) {
+		return false
+	}
+	isTrue := func(e ast.Expr) bool {
+		tv, ok := in.info.Types[e]
+		return ok && tv.Value != nil && tv.Value.Kind() == constant.Bool && constant.BoolVal(tv.Value)
+	}
+	n, ok2 := 0, true
+	ast.Inspect(in.fi.Decl, func(nd ast.Node) bool {
+		switch y := nd.(type) {
+		case *ast.AssignStmt:
+			for i, l := range y.Lhs {
+				if identObj(in.info, l) == o {
+					n++
+					if i >= len(y.Rhs) || !isTrue(y.Rhs[i]) {
+						ok2 = false
+					}
+				}
+			}
+		case *ast.ValueSpec:
+			for i, nm := range y.Names {
+				if in.info.Defs[nm] == o {
+					n++
+					if i >= len(y.Values) || !isTrue(y.Values[i]) {
+						ok2 = false
+					}
+				}
+			}
+		case *ast.UnaryExpr:
+			if y.Op == token.AND && identObj(in.info, y.X) == o {
+				ok2 = false // address taken
+			}
+		}
+		return true
+	})
+	return ok2 && n > 0
 }
